@@ -23,12 +23,14 @@
 
 import abc
 import dataclasses
+import re
 from typing import Any, Dict, Optional, Tuple, Union
 
 from metasequoia_sql.common.basic import is_bool_literal, is_float_literal, is_int_literal, is_null_literal
 from metasequoia_sql.core import static
 from metasequoia_sql.core.sql_type import SQLType
 from metasequoia_sql.errors import NotSupportError, SqlParseError
+from metasequoia_sql.lexical.fsm_operate import HANDLE_WORD_TO_MARK_HASH
 
 __all__ = [
     # ------------------------------ 抽象语法树（AST）节点的抽象类 ------------------------------
@@ -188,6 +190,16 @@ __all__ = [
     "ASTShowTablesStatement",  # SHOW TABLES 语句
     "ASTShowColumnsStatement"  # SHOW COLUMNS 语句
 ]
+
+
+PLAIN_NAME = re.compile(r"^[A-Za-z_][A-Za-z0-9_]*$")
+
+
+def quote_name_if_needed(name: str) -> str:
+    """如果名称不是普通标识符（或是词法分析器的保留字），则使用反引号包裹，从而保证输出的源码可以被重新解析为相同的名称"""
+    if PLAIN_NAME.match(name) is not None and name.upper() not in HANDLE_WORD_TO_MARK_HASH:
+        return name
+    return f"`{name}`"
 
 
 # ---------------------------------------- 抽象基类 ----------------------------------------
@@ -364,7 +376,8 @@ class ASTFunctionNameExpression(ASTBase):
 
     def source(self, sql_type: SQLType = SQLType.DEFAULT) -> str:
         """返回语法节点的 SQL 源码"""
-        return f"`{self.schema_name}`.{self.function_name}" if self.schema_name is not None else f"{self.function_name}"
+        function_name = quote_name_if_needed(self.function_name)
+        return f"`{self.schema_name}`.{function_name}" if self.schema_name is not None else f"{function_name}"
 
 
 # ---------------------------------------- 别名表达式 ----------------------------------------
@@ -378,7 +391,7 @@ class ASTAlisaExpression(ASTBase):
 
     def source(self, sql_type: SQLType = SQLType.DEFAULT) -> str:
         """返回语法节点的 SQL 源码"""
-        return f"AS {self.name}"
+        return f"AS {quote_name_if_needed(self.name)}"
 
 
 @dataclasses.dataclass(slots=True, frozen=True, eq=True)
@@ -389,7 +402,7 @@ class ASTMultiAlisaExpression(ASTBase):
 
     def source(self, sql_type: SQLType = SQLType.DEFAULT) -> str:
         """返回语法节点的 SQL 源码"""
-        names_str = ", ".join(self.names)
+        names_str = ", ".join(quote_name_if_needed(name) for name in self.names)
         return f"AS {names_str}"
 
 
@@ -1157,7 +1170,7 @@ class ASTWithTable(ASTBase):
 
     def source(self, sql_type: SQLType = SQLType.DEFAULT) -> str:
         """返回语法节点的 SQL 源码"""
-        return f"{self.name} AS ({self.statement.source(sql_type)})"
+        return f"{quote_name_if_needed(self.name)} AS ({self.statement.source(sql_type)})"
 
 
 @dataclasses.dataclass(slots=True, frozen=True, eq=True)
